@@ -1,17 +1,21 @@
 (* C05 Nothing of a connection survives its end.
-   Property theorems only; proofs live in Proofs/SubGauges.v, Proofs/SubClose.v (and the routing
-   theorems of C04).  Model: Model/SubLifecycle.v.
+   Property theorems only; proofs live in Proofs/SubAtRest.v (close-coverage invariant
+   Proofs/SubCloseInv.v, lock-holder invariant Proofs/SubLocks.v, presence-owner invariant
+   Proofs/SubPresInv.v, routing invariant Proofs/SubRoute*.v), Proofs/SubGauges.v, Proofs/SubClose.v.
+   Model: Model/SubLifecycle.v.
 
-   Full statement wanted by the property text (kept visible):
+   Full statement wanted by the property text:
      forall sched s, exec sched init = Some s -> settled s -> status s = Closed ->
        (forall c, lookup c (chans s) = None /\ hub s c = None /\ pres s c = false) /\
        reg s = false /\ gconn s = 0 /\ (forall c, gsub s c = Z.of_N (others s c)).
-   It is FALSE on the faithful model and on the implementation when the 5 s wait-gate timeout
-   fires (C05_leak_after_gate_timeout_refuted, replayed by the driver's schedule 0).  Proved: the
-   gauge part for ALL schedules; the rest is covered by the correspondence and the oracle only
-   (map / keyed / shared-poll state is outside the model). *)
+   PROVED for every schedule without the 5 s wait-gate timeout
+   (C05_nothing_remains_after_close_partial; the suffix names the one excluded label, LTimeout).
+   For schedules WITH the timeout it is FALSE on the faithful model and on the implementation
+   (C05_leak_after_gate_timeout_refuted, replayed by the driver's schedule 0; recorded finding
+   C05-genstamp-after-gate-timeout).  The gauge part holds for ALL schedules.
+   Map / keyed / shared-poll state is outside the model. *)
 From Coq Require Import List NArith ZArith Bool.
-From Cfg Require Import Model.SubLifecycle Proofs.SubGauges Proofs.SubClose.
+From Cfg Require Import Model.SubLifecycle Proofs.SubGauges Proofs.SubClose Proofs.SubAtRest.
 Import ListNotations.
 Open Scope N_scope.
 
@@ -25,6 +29,18 @@ Theorem C05_gauges_track_registry :
     forall c, gsub s c = (hub1 s c + Z.of_N (others s c))%Z.
 Proof. exact gauges_all. Qed.
 Print Assumptions C05_gauges_track_registry.
+
+(* Once the connection is closed and every operation has run to completion: no context
+   (committed or reserved) in c.channels, no hub routing entry, no hub registration
+   (clients/users/sessions are one flag in the model), no presence entry added for it, and
+   both gauges back at their prior values.  Every schedule without the wait-gate timeout. *)
+Theorem C05_nothing_remains_after_close_partial :
+  forall sched s,
+    no_timeout sched = true -> exec sched init = Some s -> settled s -> status s = Closed ->
+    (forall c, lookup c (chans s) = None /\ hub s c = None /\ pres s c = false) /\
+    reg s = false /\ gconn s = 0%Z /\ (forall c, gsub s c = Z.of_N (others s c)).
+Proof. exact closed_settled_clean. Qed.
+Print Assumptions C05_nothing_remains_after_close_partial.
 
 (* After the wait-gate timeout a stalled subscribe can commit a FRESH attempt's reservation
    (subscribeCmd re-reads the generation from c.channels); the fresh attempt's rollback then
